@@ -22,7 +22,7 @@ use std::thread::yield_now;
 #[cfg(feature = "multiqueue2_verif")]
 use crate::verif_hooks::yield_now;
 
-use crate::countedindex::{past, rm_tag};
+use crate::countedindex::{is_tagged, past, rm_tag};
 #[cfg(not(feature = "multiqueue2_verif"))]
 extern crate parking_lot;
 #[cfg(feature = "multiqueue2_verif")]
@@ -39,7 +39,13 @@ pub fn load_tagless(val: &AtomicUsize) -> usize {
 
 #[inline(always)]
 pub fn check(seq: usize, at: &AtomicUsize, wc: &AtomicUsize) -> bool {
-    let cur_count = load_tagless(at);
+    let cur_raw = at.load(Relaxed);
+    if is_tagged(cur_raw) {
+        // The slot still carries its initial flag: nothing has ever been written
+        // to it, so the only reason to stop waiting is that all writers are gone.
+        return wc.load(Relaxed) == 0;
+    }
+    let cur_count = rm_tag(cur_raw);
     wc.load(Relaxed) == 0 || seq == cur_count || past(seq, cur_count).1
 
     // if wc.load(Relaxed) == 0 || seq == cur_count || past(seq, cur_count).1 {
